@@ -27,7 +27,8 @@ describe() format
                # extras
                "end": offset just past the terminating 0 byte, "units": [unit indices]}],
   # extras
-  "sizes": {".debug_info": n, ".debug_abbrev": n, ".debug_str": n},
+  "sizes": {".debug_info": n, ".debug_abbrev": n, ".debug_str": n,
+            ".debug_loc": n},       # .debug_loc only when there is one (option loclists)
   "strings": [[offset in .debug_str, text], ...],
   "opts": {...}}
 
@@ -45,9 +46,45 @@ describe() format
    string                               {"str": text}
    strp                                 {"str": text, "strp": offset in .debug_str}
    ref4, ref_udata, ref_addr            {"ref": absolute .debug_info offset of the target DIE}
-   block1, exprloc                      {"block": [bytes...], "ops": [[opcode, operand...], ...]}
+   block1, exprloc                      {"block": [bytes...], "ops": [[opcode, operand...], ...],
+                                         "ops2": [<op>, ...]}
    flag_present                         true
    implicit_const                       {"implicit": value}
+   data4 (DWARF 2/3), sec_offset (DWARF 4) on DW_AT_location, option loclists:
+                                        {"loclist": offset of the list in .debug_loc,
+                                         "base": the address of its base address selection entry,
+                                         "entries": [{"start": absolute start address,
+                                                      "end": absolute end address (exclusive),
+                                                      "block": [...], "ops": [...], "ops2": [...]},
+                                                     ...]}        (stored order)
+
+ "ops" is the short form of an expression: per operation [opcode, operand...] with integer
+ operands as numbers, blocks as lists of bytes, a referenced DIE as its absolute offset (for
+ the operations described with "curel" below: the stored CU-relative number), a nested
+ expression as a nested "ops" list.
+ <op> = {"offset": byte offset of the opcode within the expression,
+         "op": opcode number,
+         "operands": [one of {"u": unsigned}, {"s": signed}, {"addr": address},
+                      {"block": [bytes...]}, {"expr": [<op>, ...]} (offsets count from the start
+                      of the nested expression), {"die": absolute .debug_info offset of the DIE
+                      referred to}, {"curel": the CU-relative number stored}, ...]}
+   implicit_value                       [{"block"}]               (the length is not an operand)
+   entry_value, GNU_entry_value         [{"expr"}]
+   implicit_pointer, GNU_*              [{"die"}, {"s"}]          (stored like DW_FORM_ref_addr)
+   const_type, GNU_*                    [{"die"}, {"block"}]      (stored CU-relative, ULEB128)
+   regval_type, GNU_*                   [{"u": register}, {"curel"}]
+   deref_type, GNU_*                    [{"u": size}, {"curel"}]
+   convert, reinterpret, GNU_*          [{"curel"}]               (0: the generic type)
+   GNU_parameter_ref                    [{"curel"}]               (4 bytes)
+   bregx [{"u"}, {"s"}]; bit_piece [{"u"}, {"u"}]; addr [{"addr"}]; constNu/constu/pick/
+   plus_uconst/regx/piece/deref_size/xderef_size [{"u"}]; constNs/consts/fbreg/bregN [{"s"}]
+ CU-relative ULEB128 operands are padded (redundant continuation bytes) where the layout
+ needs that to converge, like DW_FORM_ref_udata.
+
+ .debug_loc (64-bit addresses) holds the lists one after the other, without holes, in the
+ order of the attributes using them; each list is a base address selection entry
+ (0xffffffffffffffff, base), 1..4 entries (start, end: offsets from base, start < end; 2-byte
+ length; expression) in no particular order, and the (0, 0) terminator.
 
 Note on DW_FORM_ref_addr: it is address-sized (8 bytes) in DWARF 2 units and
 offset-sized (4 bytes) in DWARF 3+ units; the layout honours that.
@@ -81,7 +118,19 @@ Options (ForestGen(rng, **opts)), all sizes small by default
                                 (null dereference / unbounded recursion): with refs on, every
                                 DW_TAG_template_value_parameter gets a DW_AT_type, and that
                                 type is a base type, enumeration or typedef that is not
-                                nested in a structure
+                                nested in a structure; and no DW_OP_regval_type inside
+                                location lists (--debug-loc dies on it; DW_OP_GNU_regval_type
+                                is used there instead)
+  rich_ops=0.0                  probability that a location expression (DW_AT_location,
+                                DW_AT_frame_base, DW_AT_data_member_location, location list
+                                entries) is replaced by one of 1..24 random operations of every
+                                operand class (see _op_kinds), boundary operand values often;
+                                operations referring to DIEs only in units with a base type
+  loclists=0.0                  probability that the DW_AT_location of a variable or formal
+                                parameter in a DWARF 2, 3 or 4 unit is a location list in
+                                .debug_loc (DW_FORM_data4 / DW_FORM_sec_offset in DWARF 4)
+                                instead of one expression; never in DWARF 5 units
+  With both at 0.0 the output is what it was before these options existed, bit for bit.
 """
 import os
 import random
@@ -111,14 +160,28 @@ _BUILTIN = {
                  flag_present=0x19, implicit_const=0x21),
     "ATE": dict(void=0x0, address=0x1, boolean=0x2, float=0x4, signed=0x5, signed_char=0x6,
                 unsigned=0x7, unsigned_char=0x8, UTF=0x10),
-    "OP": dict(addr=0x03, plus_uconst=0x23, reg0=0x50, breg0=0x70, regx=0x90, fbreg=0x91,
-               bregx=0x92, piece=0x93, call_frame_cfa=0x9c, stack_value=0x9f),
+    "OP": dict(addr=0x03, deref=0x06, const1u=0x08, const1s=0x09, const2u=0x0a, const2s=0x0b,
+               const4u=0x0c, const4s=0x0d, const8u=0x0e, const8s=0x0f, constu=0x10, consts=0x11,
+               dup=0x12, drop=0x13, over=0x14, pick=0x15, swap=0x16, rot=0x17, xderef=0x18,
+               abs=0x19, div=0x1b, minus=0x1c, mod=0x1d, mul=0x1e, neg=0x1f, plus=0x22,
+               plus_uconst=0x23, shl=0x24, shr=0x25, shra=0x26, xor=0x27, bra=0x28, eq=0x29,
+               ge=0x2a, gt=0x2b, le=0x2c, lt=0x2d, ne=0x2e, skip=0x2f, lit0=0x30, reg0=0x50,
+               breg0=0x70, regx=0x90, fbreg=0x91, bregx=0x92, piece=0x93, deref_size=0x94,
+               xderef_size=0x95, nop=0x96, push_object_address=0x97, form_tls_address=0x9b,
+               call_frame_cfa=0x9c, bit_piece=0x9d, implicit_value=0x9e, stack_value=0x9f,
+               implicit_pointer=0xa0, entry_value=0xa3, const_type=0xa4, regval_type=0xa5,
+               deref_type=0xa6, convert=0xa8, reinterpret=0xa9, GNU_push_tls_address=0xe0,
+               GNU_implicit_pointer=0xf2, GNU_entry_value=0xf3, GNU_const_type=0xf4,
+               GNU_regval_type=0xf5, GNU_deref_type=0xf6, GNU_convert=0xf7,
+               GNU_reinterpret=0xf9, GNU_parameter_ref=0xfa),
     "UT": dict(compile=0x01, type=0x02, partial=0x03),
     "LANG": dict(C89=0x1, C=0x2, C_plus_plus=0x4, C99=0xc, C_plus_plus_11=0x1a, C11=0x1d,
                  C_plus_plus_14=0x21),
 }
 _BUILTIN["AT"]["import"] = _BUILTIN["AT"].pop("import_")
+_BUILTIN["OP"].update({"and": 0x1a, "not": 0x20, "or": 0x21})
 for _i in range(1, 32):
+    _BUILTIN["OP"]["lit%d" % _i] = 0x30 + _i
     _BUILTIN["OP"]["reg%d" % _i] = 0x50 + _i
     _BUILTIN["OP"]["breg%d" % _i] = 0x70 + _i
 
@@ -258,11 +321,243 @@ _FIXED = {F["data1"]: 1, F["data2"]: 2, F["data4"]: 4, F["data8"]: 8}
 _REF_FORMS = (F["ref4"], F["ref_udata"], F["ref_addr"])
 
 
+# operand kinds of location operations:
+#   u1 u2 u4 u8 uleb      unsigned constant, fixed size / ULEB128
+#   s1 s2 s4 s8 sleb      signed constant, fixed size / SLEB128
+#   addr                  target address (ADDRESS_SIZE bytes)
+#   block                 ULEB128 length + bytes           (val: bytes)
+#   block1                1-byte length + bytes            (val: bytes)
+#   expr                  ULEB128 length + nested expression (val: Expr)
+#   refaddr               section offset of a DIE, sized like DW_FORM_ref_addr (val: Die)
+#   die_uleb              CU-relative offset of a DIE, padded ULEB128; described as {"die"}
+#   curel_uleb            CU-relative offset of a DIE (or None: 0), padded ULEB128; {"curel"}
+#   curel4                CU-relative offset of a DIE, 4 bytes; {"curel"}
+_U_SIZE = {"u1": 1, "u2": 2, "u4": 4, "u8": 8}
+_S_SIZE = {"s1": 1, "s2": 2, "s4": 4, "s8": 8}
+
+
+def _op_kinds():
+    """{opcode: tuple of operand kinds} for every operation the generator can emit."""
+    k = {}
+    for n in ("deref dup drop over swap rot abs and div minus mod mul neg not or plus shl shr "
+              "shra xor eq ge gt le lt ne nop push_object_address form_tls_address "
+              "call_frame_cfa stack_value GNU_push_tls_address").split():
+        k[O[n]] = ()
+    for i in range(32):
+        k[O["lit0"] + i] = ()
+        k[O["reg0"] + i] = ()
+        k[O["breg0"] + i] = ("sleb",)
+    for n, kinds in (("const1u", "u1"), ("const2u", "u2"), ("const4u", "u4"), ("const8u", "u8"),
+                     ("constu", "uleb"), ("pick", "u1"), ("plus_uconst", "uleb"),
+                     ("regx", "uleb"), ("piece", "uleb"), ("deref_size", "u1"),
+                     ("xderef_size", "u1"), ("const1s", "s1"), ("const2s", "s2"),
+                     ("const4s", "s4"), ("const8s", "s8"), ("consts", "sleb"), ("fbreg", "sleb"),
+                     ("bregx", "uleb sleb"), ("bit_piece", "uleb uleb"), ("addr", "addr"),
+                     ("implicit_value", "block"), ("entry_value", "expr"),
+                     ("GNU_entry_value", "expr"), ("implicit_pointer", "refaddr sleb"),
+                     ("GNU_implicit_pointer", "refaddr sleb"), ("const_type", "die_uleb block1"),
+                     ("GNU_const_type", "die_uleb block1"), ("regval_type", "uleb curel_uleb"),
+                     ("GNU_regval_type", "uleb curel_uleb"), ("deref_type", "u1 curel_uleb"),
+                     ("GNU_deref_type", "u1 curel_uleb"), ("convert", "curel_uleb"),
+                     ("GNU_convert", "curel_uleb"), ("reinterpret", "curel_uleb"),
+                     ("GNU_reinterpret", "curel_uleb"), ("GNU_parameter_ref", "curel4")):
+        k[O[n]] = tuple(kinds.split())
+    return k
+
+
+_OP_KINDS = _op_kinds()
+
+
+class Opnd:
+    """One operand of a location operation: kind (see above) and value."""
+    __slots__ = ("kind", "val", "minlen")
+
+    def __init__(self, kind, val):
+        self.kind, self.val = kind, val
+        self.minlen = 1          # padded ULEBs: bytes reserved so far (grows monotonically)
+
+
+class XOp:
+    """One location operation: opcode and a list of Opnd."""
+    __slots__ = ("code", "operands")
+
+    def __init__(self, code, operands):
+        self.code, self.operands = code, operands
+
+
+class Expr:
+    """A location expression of a unit.  Its bytes depend on the final DIE offsets when an
+    operation refers to a DIE, so they are computed on demand (encode()).  For code that
+    treats a block value as the pair (bytes, ops) an Expr can be indexed / unpacked like
+    that pair."""
+    __slots__ = ("unit", "xops")
+
+    def __init__(self, unit, xops):
+        self.unit, self.xops = unit, xops
+
+    @classmethod
+    def make(cls, unit, ops):
+        """From [(opcode or name, operand value...)]; values: int, bytes, Die / None, Expr."""
+        xops = []
+        for op in ops:
+            code = O[op[0]] if isinstance(op[0], str) else op[0]
+            kinds = _OP_KINDS[code]
+            assert len(kinds) == len(op) - 1, op
+            xops.append(XOp(code, [Opnd(k, v) for k, v in zip(kinds, op[1:])]))
+        return cls(unit, xops)
+
+    def _opnd_bytes(self, o):
+        k, v = o.kind, o.val
+        if k in _U_SIZE:
+            return v.to_bytes(_U_SIZE[k], "little")
+        if k in _S_SIZE:
+            return v.to_bytes(_S_SIZE[k], "little", signed=True)
+        if k == "uleb":
+            return uleb(v)
+        if k == "sleb":
+            return sleb(v)
+        if k == "addr":
+            return v.to_bytes(ADDRESS_SIZE, "little")
+        if k == "block":
+            return uleb(len(v)) + v
+        if k == "block1":
+            return bytes([len(v)]) + v
+        if k == "expr":
+            b = v.encode()[0]
+            return uleb(len(b)) + b
+        if k == "refaddr":
+            return v.offset.to_bytes(self.unit.ref_addr_size, "little")
+        rel = self._curel(o)
+        if k == "curel4":
+            return rel.to_bytes(4, "little")
+        o.minlen = max(o.minlen, len(uleb(rel)))      # die_uleb, curel_uleb
+        return uleb_padded(rel, o.minlen)
+
+    def _curel(self, o):
+        if o.val is None:
+            return 0
+        assert o.val.unit is self.unit
+        return o.val.offset - self.unit.offset
+
+    def encode(self):
+        """(bytes, [offset of each operation])."""
+        out, offs = bytearray(), []
+        for x in self.xops:
+            offs.append(len(out))
+            out.append(x.code)
+            for o in x.operands:
+                out += self._opnd_bytes(o)
+        return bytes(out), offs
+
+    def max_size(self):
+        """Upper bound of the encoded size whatever the DIE offsets turn out to be."""
+        n = 0
+        for x in self.xops:
+            n += 1
+            for o in x.operands:
+                if o.kind in ("die_uleb", "curel_uleb"):
+                    n += 5
+                elif o.kind == "refaddr":
+                    n += 8
+                else:
+                    n += len(self._opnd_bytes(o))
+        return n
+
+    def ops(self):
+        """The short form: [[opcode, operand...]]; blocks as lists, DIEs as absolute offsets
+        (curel operands: the stored number), nested expressions as nested lists."""
+        out = []
+        for x in self.xops:
+            row = [x.code]
+            for o in x.operands:
+                if o.kind in ("block", "block1"):
+                    row.append(list(o.val))
+                elif o.kind == "expr":
+                    row.append(o.val.ops())
+                elif o.kind in ("refaddr", "die_uleb"):
+                    row.append(o.val.offset)
+                elif o.kind in ("curel_uleb", "curel4"):
+                    row.append(self._curel(o))
+                else:
+                    row.append(o.val)
+            out.append(row)
+        return out
+
+    def ops2(self):
+        out = []
+        for x, off in zip(self.xops, self.encode()[1]):
+            row = []
+            for o in x.operands:
+                k = o.kind
+                if k in _U_SIZE or k == "uleb":
+                    row.append({"u": o.val})
+                elif k in _S_SIZE or k == "sleb":
+                    row.append({"s": o.val})
+                elif k == "addr":
+                    row.append({"addr": o.val})
+                elif k in ("block", "block1"):
+                    row.append({"block": list(o.val)})
+                elif k == "expr":
+                    row.append({"expr": o.val.ops2()})
+                elif k in ("refaddr", "die_uleb"):
+                    row.append({"die": o.val.offset})
+                else:
+                    row.append({"curel": self._curel(o)})
+            out.append({"offset": off, "op": x.code, "operands": row})
+        return out
+
+    def dies(self):
+        """Every Die an operand refers to."""
+        return [o.val for x in self.xops for o in x.operands
+                if o.kind in ("refaddr", "die_uleb", "curel_uleb", "curel4") and o.val is not None]
+
+    def describe(self):
+        return {"block": list(self.encode()[0]), "ops": self.ops(), "ops2": self.ops2()}
+
+    # the pair view: expr[0] = bytes, expr[1] = short ops; `b, ops = expr`
+    def __getitem__(self, i):
+        return (self.encode()[0], [tuple(o) for o in self.ops()])[i]
+
+    def __iter__(self):
+        return iter((self[0], self[1]))
+
+    def __len__(self):
+        return 2
+
+
+class LocList:
+    """A location list in .debug_loc: a base address selection entry, then `entries`
+    [(start, end, Expr)] (offsets from `base`), then the terminator."""
+    __slots__ = ("unit", "base", "entries", "offset")
+
+    def __init__(self, unit, base, entries):
+        self.unit, self.base, self.entries = unit, base, entries
+        self.offset = 0
+
+    def encode(self):
+        out = bytearray(struct.pack("<QQ", M64, self.base))
+        for start, end, ex in self.entries:
+            b = ex.encode()[0]
+            assert len(b) < 0x10000
+            out += struct.pack("<QQH", start, end, len(b)) + b
+        out += struct.pack("<QQ", 0, 0)
+        return bytes(out)
+
+    def describe(self):
+        ents = []
+        for start, end, ex in self.entries:
+            e = {"start": self.base + start, "end": self.base + end}
+            e.update(ex.describe())
+            ents.append(e)
+        return {"loclist": self.offset, "base": self.base, "entries": ents}
+
+
 class Attr:
     """One attribute.  `val` by form:
     data1..8: unsigned raw int; sdata: signed int; udata/flag/addr/sec_offset: int;
-    string/strp: str; ref4/ref_udata/ref_addr: target Die; block1/exprloc: (bytes, ops);
-    flag_present: True; implicit_const: signed int."""
+    string/strp: str; ref4/ref_udata/ref_addr: target Die; block1/exprloc: Expr (which can
+    be read as the pair (bytes, ops)); flag_present: True; implicit_const: signed int;
+    data4/sec_offset holding a location list: LocList."""
     __slots__ = ("name", "form", "val", "minlen", "strp_off")
 
     def __init__(self, name, form, val):
@@ -352,6 +647,7 @@ class Forest:
         self.debug_info = b""
         self.debug_abbrev = b""
         self.debug_str = b""
+        self.debug_loc = b""
         self.strings = []       # [(offset, text)]
         self._desc = None
 
@@ -404,6 +700,9 @@ class Forest:
 
     def _attr_bytes(self, a, unit):
         f = a.form
+        if isinstance(a.val, LocList):
+            assert f in (F["data4"], F["sec_offset"])
+            return a.val.offset.to_bytes(4, "little")
         if f in _FIXED:
             return a.val.to_bytes(_FIXED[f], "little")
         if f == F["sdata"]:
@@ -433,11 +732,27 @@ class Forest:
         if f == F["ref_addr"]:
             return a.val.offset.to_bytes(unit.ref_addr_size, "little")
         if f == F["block1"]:
-            assert len(a.val[0]) < 256
-            return bytes([len(a.val[0])]) + a.val[0]
+            b = a.val[0]
+            assert len(b) < 256
+            return bytes([len(b)]) + b
         if f == F["exprloc"]:
-            return uleb(len(a.val[0])) + a.val[0]
+            b = a.val[0]
+            return uleb(len(b)) + b
         raise ValueError("form %#x not supported" % f)
+
+    def loclists(self):
+        """The LocList values in the order their attributes are stored in .debug_info."""
+        return [a.val for u in self.units for d in u.root.walk() for a in d.attrs
+                if isinstance(a.val, LocList)]
+
+    def _serialize_loc(self):
+        """.debug_loc from the DIE offsets of the previous pass: the lists one after the
+        other, no holes, in the order of the attributes that use them."""
+        out = bytearray()
+        for ll in self.loclists():
+            ll.offset = len(out)
+            out += ll.encode()
+        return bytes(out)
 
     def _serialize_info(self):
         """One pass: bytes of .debug_info using the DIE offsets of the previous pass for
@@ -473,8 +788,10 @@ class Forest:
 
     def _layout_info(self):
         for _ in range(64):
+            loc = self._serialize_loc()
             data, new = self._serialize_info()
-            changed = False
+            changed = loc != self.debug_loc
+            self.debug_loc = loc
             for u in self.units:
                 start, end = new[("unit", u.index)]
                 if (u.offset, u.end) != (start, end):
@@ -499,6 +816,8 @@ class Forest:
 
     def _value(self, a):
         f = a.form
+        if isinstance(a.val, LocList):
+            return a.val.describe()
         if f in _FIXED:
             return {"raw": a.val, "size": _FIXED[f], "signed": _sext(a.val, _FIXED[f])}
         if f == F["sdata"]:
@@ -516,6 +835,8 @@ class Forest:
         if f in _REF_FORMS:
             return {"ref": a.val.offset}
         if f in (F["block1"], F["exprloc"]):
+            if isinstance(a.val, Expr):
+                return a.val.describe()
             return {"block": list(a.val[0]), "ops": [list(op) for op in a.val[1]]}
         raise ValueError(f)
 
@@ -551,10 +872,11 @@ class Forest:
                 ents.append(ent)
             abbrevs.append({"table_offset": t.offset, "entries": ents, "end": t.end,
                             "units": [u.index for u in t.units]})
-        self._desc = {"units": units, "abbrevs": abbrevs,
-                      "sizes": {".debug_info": len(self.debug_info),
-                                ".debug_abbrev": len(self.debug_abbrev),
-                                ".debug_str": len(self.debug_str)},
+        sizes = {".debug_info": len(self.debug_info), ".debug_abbrev": len(self.debug_abbrev),
+                 ".debug_str": len(self.debug_str)}
+        if self.debug_loc:
+            sizes[".debug_loc"] = len(self.debug_loc)
+        self._desc = {"units": units, "abbrevs": abbrevs, "sizes": sizes,
                       "strings": [[off, s] for off, s in self.strings],
                       "opts": dict((k, list(v) if isinstance(v, tuple) else v)
                                    for k, v in self.opts.items())}
@@ -563,12 +885,16 @@ class Forest:
     # -- output ------------------------------------------------------------
 
     def sections(self):
-        return {".debug_info": self.debug_info, ".debug_abbrev": self.debug_abbrev,
+        secs = {".debug_info": self.debug_info, ".debug_abbrev": self.debug_abbrev,
                 ".debug_str": self.debug_str}
+        if self.debug_loc:
+            secs[".debug_loc"] = self.debug_loc
+        return secs
 
     def elf_bytes(self):
-        """ELF64 little-endian x86-64 relocatable object holding an empty .text, the three
-        debug sections, an empty symbol table and the string tables."""
+        """ELF64 little-endian x86-64 relocatable object holding an empty .text, the debug
+        sections (.debug_loc only if there are location lists), an empty symbol table and the
+        string tables."""
         secs = [  # name, type, flags, data, link, info, align, entsize
             ("", 0, 0, b"", 0, 0, 0, 0),
             (".text", 1, 0x6, b"", 0, 0, 1, 0),
@@ -577,7 +903,11 @@ class Forest:
             (".debug_info", 1, 0, self.debug_info, 0, 0, 1, 0),
             (".debug_abbrev", 1, 0, self.debug_abbrev, 0, 0, 1, 0),
             (".debug_str", 1, 0x30, self.debug_str, 0, 0, 1, 1),
-            (".symtab", 2, 0, b"\0" * 24, 8, 1, 8, 24),
+        ]
+        if self.debug_loc:
+            secs.append((".debug_loc", 1, 0, self.debug_loc, 0, 0, 1, 0))
+        secs += [
+            (".symtab", 2, 0, b"\0" * 24, len(secs) + 1, 1, 8, 24),
             (".strtab", 3, 0, b"\0", 0, 0, 1, 0),
             (".shstrtab", 3, 0, None, 0, 0, 1, 0),
         ]
@@ -618,7 +948,9 @@ class Forest:
         """The same object as assembler source: `.byte` lines only, no expressions."""
         L = ["\t.text"]
         for name, flags in ((".debug_abbrev", '"",@progbits'), (".debug_info", '"",@progbits'),
-                            (".debug_str", '"MS",@progbits,1')):
+                            (".debug_str", '"MS",@progbits,1'), (".debug_loc", '"",@progbits')):
+            if name not in self.sections():
+                continue
             L.append("\t.section %s,%s" % (name, flags))
             data = self.sections()[name]
             for i in range(0, len(data), 16):
@@ -653,7 +985,8 @@ class Forest:
 _DEFAULTS = dict(min_units=1, max_units=4, max_depth=4, max_dies=40, versions=(2, 3, 4, 5),
                  partial_units=True, refs=True, share_abbrev=0.5, sibling=0.35, strp=0.5,
                  lone_null=0.15, odd_codes=0.3, cross_unit_chains=False, max_chain=4,
-                 llvm_safe=True, v4_block_locations=False, extras=0.3, refused=0.0,
+                 llvm_safe=True, v4_block_locations=False, extras=0.3, refused=0.0, cu_imports=0.0, dup_attrs=0.0, implicit_consts=0.0,
+                 rich_ops=0.0, loclists=0.0,
                  const_forms=("data1", "data2", "data4", "data8", "sdata", "udata"))
 
 _WORDS = ["foo", "bar", "baz", "qux", "main", "x", "y", "i", "T", "value", "next", "node",
@@ -840,19 +1173,198 @@ class ForestGen:
         elif choice == "plus_uconst":
             op("plus_uconst", r.choice([0, 1, 4, 8, 127, 128, r.randint(0, 100000)]))
         # "empty": no ops
-        out = bytearray()
-        for o in ops:
-            code = o[0]
-            out.append(code)
-            if code == O["addr"]:
-                out += o[1].to_bytes(ADDRESS_SIZE, "little")
-            elif code in (O["plus_uconst"], O["piece"]):
-                out += uleb(o[1])
-            elif code == O["fbreg"] or O["breg0"] <= code <= O["breg0"] + 31:
-                out += sleb(o[1])
-            elif code == O["bregx"]:
-                out += uleb(o[1]) + sleb(o[2])
-        return bytes(out), ops
+        return Expr.make(unit, ops)
+
+    # operand values for the rich generator: boundary values often
+    _RICH_U = {1: [0, 1, 0x7f, 0x80, 0xff, 0xfe],
+               2: [0, 1, 0x7f, 0x80, 0xff, 0x100, 0x7fff, 0x8000, 0xffff],
+               4: [0, 1, 0xffff, 0x10000, 0x7fffffff, 0x80000000, 0xffffffff],
+               8: [0, 1, 0xffffffff, 0x100000000, 0x7fffffffffffffff, 0x8000000000000000,
+                   0xffffffffffffffff]}
+    _RICH_ULEB = [0, 1, 127, 128, 255, 16383, 16384, 0x1fffff, 0x200000, 0xffffffff,
+                  0x7fffffffffffffff, 0x8000000000000000, 0xffffffffffffffff]
+    _RICH_SLEB = [0, 1, -1, 63, 64, -64, -65, 127, 128, -128, -129, 8191, 8192, -8192, -8193,
+                  0x7fffffff, -0x80000000, 0x7fffffffffffffff, -0x8000000000000000,
+                  0x7fffffffffffffff, -0x8000000000000000]
+    _RICH_NOARG = ("deref dup drop over swap rot abs and div minus mod mul neg not or plus shl shr "
+                   "shra xor eq ge gt le lt ne nop push_object_address form_tls_address "
+                   "call_frame_cfa stack_value GNU_push_tls_address").split()
+
+    def _rich_u(self, size):
+        r = self.rng
+        if self._chance(0.7):
+            return r.choice(self._RICH_U[size])
+        if self._chance(0.5):
+            return (1 << r.randint(1, 8 * size)) - 1
+        return r.randrange(0, 1 << (8 * size))
+
+    def _rich_s(self, size):
+        return _sext(self._rich_u(size), size)
+
+    def _rich_uleb(self):
+        r = self.rng
+        if self._chance(0.7):
+            return r.choice(self._RICH_ULEB)
+        if self._chance(0.5):
+            return (1 << r.randint(1, 64)) - 1
+        return r.randrange(0, 1 << r.randint(1, 64))
+
+    def _rich_sleb(self):
+        r = self.rng
+        if self._chance(0.7):
+            return r.choice(self._RICH_SLEB)
+        k = r.randint(1, 62)
+        return r.choice([(1 << k) - 1, -(1 << k), -(1 << k) - 1, r.randint(-(1 << k), 1 << k)])
+
+    def _deal(self, key, items):
+        """The next of `items` from a shuffled deck (reshuffled when used up): every item
+        turns up once before any turns up twice."""
+        decks = self.__dict__.setdefault("_decks", {})
+        deck = decks.get(key)
+        if not deck:
+            deck = decks[key] = list(items)
+            self.rng.shuffle(deck)
+        return deck.pop()
+
+    def _rich_op(self, unit, ctx):
+        """One random operation (name, operand values...) of a random operand class."""
+        r = self.rng
+        classes = [("noarg", 10), ("lit", 1), ("reg", 1), ("unsigned", 4), ("signed", 3),
+                   ("breg", 1), ("two", 2), ("addr", 1), ("block", 1), ("nested", 1)]
+        if ctx and ctx["bases"]:
+            classes.append(("die", 9))
+        cls = self._weighted(classes)
+        if cls == "noarg":
+            return (self._deal("noarg", self._RICH_NOARG),)
+        if cls == "lit":
+            return ("lit%d" % r.choice([0, 1, 15, 16, 30, 31, r.randint(0, 31)]),)
+        if cls == "reg":
+            return ("reg%d" % r.choice([0, 1, 15, 16, 30, 31, r.randint(0, 31)]),)
+        if cls == "unsigned":
+            name, size = self._deal("unsigned", [
+                ("const1u", 1), ("const2u", 2), ("const4u", 4), ("const8u", 8), ("constu", 0),
+                ("pick", 1), ("plus_uconst", 0), ("regx", 0), ("piece", 0), ("deref_size", 1),
+                ("xderef_size", 1)])
+            return (name, self._rich_u(size) if size else self._rich_uleb())
+        if cls == "signed":
+            name, size = self._deal("signed", [("const1s", 1), ("const2s", 2), ("const4s", 4),
+                                               ("const8s", 8), ("consts", 0), ("fbreg", 0)])
+            return (name, self._rich_s(size) if size else self._rich_sleb())
+        if cls == "breg":
+            return ("breg%d" % r.choice([0, 1, 15, 16, 30, 31, r.randint(0, 31)]),
+                    self._rich_sleb())
+        if cls == "two":
+            if self._chance(0.5):
+                return ("bregx", self._rich_uleb(), self._rich_sleb())
+            return ("bit_piece", self._rich_uleb(), self._rich_uleb())
+        if cls == "addr":
+            return ("addr", self._rich_u(8))
+        if cls == "block":
+            n = r.choice([0, 1, 2, 4, 8, 16, r.randint(0, 20), 127, 128, 130])
+            return ("implicit_value", bytes(r.choice([0, 0xff, r.randrange(256)])
+                                            for _ in range(n)))
+        if cls == "nested":
+            reg = r.choice([0, 1, 5, 31, r.randint(0, 31)])
+            if self._chance(0.5):
+                inner = Expr.make(unit, [("reg%d" % reg,)])
+            else:
+                inner = Expr.make(unit, [("breg%d" % reg, self._rich_sleb())])
+            return (r.choice(["entry_value", "GNU_entry_value"]), inner)
+        # DIE references
+        gnu, which = self._deal("die", [(g, w) for g in ("", "GNU_") for w in (
+            "implicit_pointer", "implicit_pointer", "const_type", "regval_type", "deref_type",
+            "convert", "reinterpret", "parameter_ref")])
+        base = r.choice(ctx["bases"])
+        if which == "implicit_pointer":
+            pool = ctx["foreign"] if ctx["foreign"] and self._chance(0.5) else ctx["local"]
+            return (gnu + which, r.choice(pool), self._rich_sleb())
+        if which == "const_type":
+            n = r.choice([0, 1, 2, 4, 8, 16, r.randint(0, 20)])
+            return (gnu + which, base, bytes(r.choice([0, 0xff, r.randrange(256)])
+                                             for _ in range(n)))
+        if which == "regval_type":
+            return (gnu + which, self._rich_uleb(), base)
+        if which == "deref_type":
+            return (gnu + which, self._rich_u(1), base)
+        if which in ("convert", "reinterpret"):
+            return (gnu + which, None if self._chance(0.25) else base)
+        return ("GNU_parameter_ref", r.choice(ctx["params"] or ctx["local"]))
+
+    def _rich_expr(self, unit, ctx=None, limit=1000):
+        """A location expression of 1..24 random operations of all operand classes; `ctx`
+        (see _rich_ctx) supplies the DIEs operations may refer to, without it (or in a unit
+        without base types) no DIE-referring operation is made.  At most `limit` bytes."""
+        ops = [self._rich_op(unit, ctx)
+               for _ in range(self.rng.choice([1, 2, 3, 4, 6, 8, 10, 12, 16, 20, 24]))]
+        ex = Expr.make(unit, ops)
+        while ex.max_size() > limit:
+            ex.xops.pop()
+        return ex
+
+    def _rich_ctx(self, unit, units):
+        local = list(unit.root.walk())
+        return {"bases": [d for d in local if d.tag == T["base_type"]], "local": local,
+                "params": [d for d in local if d.tag == T["formal_parameter"]],
+                "foreign": [d for u in units if u is not unit for d in u.root.walk()]}
+
+    def _loclist(self, unit, first, more):
+        """A LocList with `first` as the expression of its first entry; more() makes others."""
+        r = self.rng
+        base = r.choice([0, 0x1000, 0x401000, r.randrange(0, 1 << 24) * 16,
+                         0x7f0000000000 + r.randrange(0, 1 << 16) * 4,
+                         r.randrange(0, 1 << 63)])
+        n = r.randint(1, 4)
+        span = r.choice([0x10, 0x100, 0x10000, 1 << 32, min(1 << 63, M64 - base)])
+        span = max(min(span, M64 - base), 2 * n)
+        pts = set()
+        while len(pts) < 2 * n:
+            pts.add(r.randint(0, span))
+        pts = sorted(pts)
+        if self._chance(0.3):
+            pts[0] = 0
+        if self._chance(0.2):
+            pts[-1] = M64 - base
+        ranges = [[pts[2 * i], pts[2 * i + 1]] for i in range(n)]
+        for i in range(n - 1):
+            if self._chance(0.4):           # adjacent ranges
+                ranges[i][1] = ranges[i + 1][0]
+        exprs = [first] + [more() for _ in range(n - 1)]
+        if self._chance(0.5):
+            r.shuffle(ranges)
+        return LocList(unit, base, [(s, e, x) for (s, e), x in zip(ranges, exprs)])
+
+    def _enrich(self, units):
+        """Options rich_ops / loclists: after the trees are final, swap location expressions
+        for rich ones and turn DW_AT_location expressions of variables and parameters in
+        DWARF 2..4 units into location lists."""
+        p_rich, p_list = self.opts["rich_ops"], self.opts["loclists"]
+        if p_rich <= 0 and p_list <= 0:
+            return
+        blocks = (F["block1"], F["exprloc"])
+        for u in units:
+            ctx = self._rich_ctx(u, units)
+            for d in u.root.walk():
+                for a in d.attrs:
+                    if a.form not in blocks or not isinstance(a.val, Expr):
+                        continue
+                    if p_rich > 0 and self._chance(p_rich):
+                        a.val = self._rich_expr(u, ctx, 200 if a.form == F["block1"] else 1000)
+                    if p_list > 0 and u.version <= 4 and a.name == A["location"] \
+                            and d.tag in (T["variable"], T["formal_parameter"]) \
+                            and self._chance(p_list):
+                        def more():
+                            if p_rich > 0 and self._chance(p_rich):
+                                return self._rich_expr(u, ctx, 1000)
+                            return self._expr(u)
+                        a.val = self._loclist(u, a.val, more)
+                        if self.opts["llvm_safe"]:
+                            # llvm-dwarfdump-14 --debug-loc dies on DW_OP_regval_type (it looks
+                            # for the base type in a unit it does not have): use the GNU twin
+                            for _, _, ex in a.val.entries:
+                                for x in ex.xops:
+                                    if x.code == O["regval_type"]:
+                                        x.code = O["GNU_regval_type"]
+                        a.form = F["sec_offset"] if u.version >= 4 else F["data4"]
 
     def _loc_form(self, unit):
         """DWARF 2/3: block1.  DWARF 4+: exprloc; libdw (dwarf_getlocation) refuses block
@@ -1036,6 +1548,23 @@ class ForestGen:
         if self._chance(self.opts["refused"]):
             d.add(r.choice(["string_length", "discr_value", "discr_list"]) if tn != "member" else "discr_value",
                   r.choice(["data1", "data2", "data4"]), r.choice([0, 1, 0x80, 0xff]))
+        if d.unit.version >= 5 and self._chance(self.opts["implicit_consts"]):
+            # DWARF 5: the value lives in the abbreviation (one, two or three SLEB128 bytes; also zero and negative)
+            for name in ("decl_column", "decl_line", "byte_size", "bit_size", "alignment", "start_scope", "decl_file_"):
+                if name.endswith("_") or d.has(name) or not self._chance(0.45):
+                    continue
+                d.add(name, "implicit_const", r.choice([0, 1, 5, 63, 64, 127, 128, 200, 8191, 8192, 70000]))
+        if self._chance(self.opts["dup_attrs"]) and d.attrs:
+            # the same attribute name twice in one DIE (libdw reads it; tools call it malformed): stored order must be kept
+            a = r.choice(d.attrs)
+            if a.form in (F["data1"], F["data2"], F["udata"], F["string"], F["flag"]) and a.name not in (A["sibling"],):
+                if a.form == F["string"]:
+                    dup = Attr(a.name, F["string"], self._name() + "_again")
+                elif a.form == F["flag"]:
+                    dup = Attr(a.name, F["flag"], 1 - (1 if a.val else 0))
+                else:
+                    dup = Attr(a.name, F[r.choice(["data1", "udata"])], r.choice([0, 3, 127, 200]))
+                d.attrs.insert(r.randint(d.attrs.index(a) + 1, len(d.attrs)), dup)
 
     def _populate(self, d, shape):
         """Children of d (recursively), within the unit's budget and depth limit."""
@@ -1351,6 +1880,12 @@ class ForestGen:
                     if self._chance(0.25):
                         c.imports.append(p)      # the same partial unit imported twice
             r.shuffle(c.imports)
+        # DW_AT_import may also refer to a normal compilation unit: only earlier ones, so the graph stays acyclic
+        if o.get("cu_imports", 0.0) > 0:
+            for j, c in enumerate(cus):
+                for c2 in cus[:j]:
+                    if self._chance(o["cu_imports"]):
+                        c.imports.insert(r.randint(0, len(c.imports)), c2)
         for u in units:
             del u.imports[max(0, o["max_dies"] - 1):]
         return units
@@ -1364,6 +1899,7 @@ class ForestGen:
         if self.opts["refs"]:
             self._add_types(units)
             self._add_chains(units)
+        self._enrich(units)
         for u in units:
             # children flag: forced by children, otherwise now and then a lone null entry
             for d in u.root.walk():
